@@ -766,6 +766,7 @@ func c17r7(c *Ctx) {
 	arg := gcs[0].Expr.Args[3]
 	okDef := false
 	desc := "?"
+	other := ""
 	for _, s := range f.SourcesAt(arg, gcs[0].Expr) {
 		if s.Kind == "call" && s.Key == "gobeansdb.getFormValueInt" && len(s.Call.Args) == 3 {
 			if name, isS := prog.ConstString(info, s.Call.Args[1]); isS && name == "nogcdays" {
@@ -776,9 +777,15 @@ func c17r7(c *Ctx) {
 						okDef = true
 					}
 				}
+				continue
 			}
 		}
+		other = s.Kind
+		if s.Expr != nil {
+			other = types.ExprString(s.Expr)
+		}
 	}
+	c.check(other == "", R, f.Key+": `nogcdays` reaches HStore.GC as parsed", gcs[0].Pos(), "the form value, nothing else", "the age-limit argument of HStore.GC can also be `"+other+"`, assigned between the parse and the call: a negative value is the in-band request for the configured no_gc_days, rewriting it (e.g. clamping to 0) makes every default request run with no age limit")
 	c.check(okDef, R, f.Key+": missing `nogcdays` ⇒ negative (use the configured limit)", gcs[0].Pos(), "default "+desc, "a GC request that does not name `nogcdays` is passed on with default "+desc+" instead of a negative value: gcCheckEnd then applies no age limit at all and young files are collected despite no_gc_days")
 }
 
